@@ -25,6 +25,8 @@ type walkerModel struct {
 	Ev     *types.Named
 	lost   []string
 	byName map[string]*ssa.Function
+	hosts      map[string]*ssa.Function
+	hostIssues []string
 }
 
 func newWalkerModel(p *Program) *walkerModel {
@@ -50,6 +52,68 @@ func newWalkerModel(p *Program) *walkerModel {
 		}
 	}
 	return m
+}
+
+// host: the Walker method that handles the node whose observers are Events.<event>. It is the named function, or — when
+// that function hands the whole case to a helper method (walkSelection -> walkField) — the helper, provided the
+// helper's call cannot be bypassed once the case is entered. Problems are collected in hostIssues.
+func (m *walkerModel) host(fnName, event string) *ssa.Function {
+	fn := m.byName[fnName]
+	if fn == nil || event == "" || len(m.dispatchBlocks(fn, event)) > 0 {
+		return fn
+	}
+	key := fnName + "/" + event
+	if h, ok := m.hosts[key]; ok {
+		return h
+	}
+	if m.hosts == nil {
+		m.hosts = map[string]*ssa.Function{}
+	}
+	m.hosts[key] = fn
+	var cands []ssa.CallInstruction
+	allInstrs(fn, func(in ssa.Instruction) {
+		ci, ok := in.(ssa.CallInstruction)
+		if !ok {
+			return
+		}
+		h := ci.Common().StaticCallee()
+		if h == nil || h == fn || h.Parent() != nil || h.Signature.Recv() == nil || !sameNamed(namedOf(h.Signature.Recv().Type()), m.W) {
+			return
+		}
+		if len(m.dispatchBlocks(h, event)) > 0 {
+			cands = append(cands, ci)
+		}
+	})
+	if len(cands) != 1 {
+		return fn
+	}
+	ci := cands[0]
+	h := ci.Common().StaticCallee()
+	// once the case that leads to the call is entered, the call cannot be bypassed: from the nearest dominating
+	// type-switch arm (or the function entry) no return is reachable around the call
+	entry := fn.Blocks[0]
+	for d := ci.Block(); d != nil; d = d.Idom() {
+		if id := d.Idom(); id != nil {
+			if ifi, ok := id.Instrs[len(id.Instrs)-1].(*ssa.If); ok {
+				if ex, ok := ifi.Cond.(*ssa.Extract); ok {
+					if _, isTA := ex.Tuple.(*ssa.TypeAssert); isTA && id.Succs[0] == d {
+						entry = d
+						break
+					}
+				}
+			}
+		}
+	}
+	if entry != ci.Block() {
+		rr := reachAvoiding(entry, func(b *ssa.BasicBlock) bool { return b == ci.Block() }, nil)
+		for b := range rr {
+			if _, isRet := b.Instrs[len(b.Instrs)-1].(*ssa.Return); isRet {
+				m.hostIssues = append(m.hostIssues, fmt.Sprintf("%s can return from the case that handles Events.%s without calling %s", m.p.FuncName(fn), event, m.p.FuncName(h)))
+			}
+		}
+	}
+	m.hosts[key] = h
+	return h
 }
 
 // dispatchBlocks: blocks of fn that load Events.<list> (the pre-header of the dispatch loop).
@@ -290,7 +354,7 @@ func runC09(c *Ctx) {
 		{annot{"VariableDefinition", "Definition"}, "walkOperation", "variable"},
 	}
 	for _, u := range unconds {
-		fn := m.byName[u.fn]
+		fn := m.host(u.fn, u.dispatch)
 		disp := m.dispatchBlocks(fn, u.dispatch)
 		if len(disp) == 0 {
 			r1.AnchorLost("dispatch of Events." + u.dispatch + " in " + p.FuncName(fn))
@@ -603,10 +667,17 @@ func c09Provenance(c *Ctx, r *RuleResult, m *walkerModel, written map[annot][]fi
 			return g != nil && g.Name() == "Name" && loadOfField(call.Call.Args[0], st, f)
 		}
 	}
+	nodeEvent := map[string]string{"Field": "field", "InlineFragment": "inlineFragment", "FragmentSpread": "fragmentSpread"}
 	check := func(a annot, fnName string, ok func(s fieldStoreSite) bool, what string) {
 		n := 0
+		hostName := fnName
+		if ev, has := nodeEvent[a.st]; has {
+			if h := m.host(fnName, ev); h != nil {
+				hostName = h.Name()
+			}
+		}
 		for _, s := range written[a] {
-			if rootFunc(s.fn).Name() != fnName {
+			if nm := rootFunc(s.fn).Name(); nm != fnName && nm != hostName {
 				continue
 			}
 			n++
@@ -759,7 +830,7 @@ func walkCoverage(c *Ctx, r *RuleResult, m *walkerModel) {
 		{"walkValue", [2]string{"ChildValue", "Value"}, "walkValue", 1, -1, nil, "value", false, "kind"},
 	}
 	for _, ch := range children {
-		fn := m.byName[ch.fn]
+		fn := m.host(ch.fn, ch.dispatch)
 		callee := m.byName[ch.callee]
 		var sites []ssa.CallInstruction
 		for _, ci := range callsTo([]*ssa.Function{fn}, callee) {
@@ -919,7 +990,7 @@ func walkCoverage(c *Ctx, r *RuleResult, m *walkerModel) {
 		}
 	}
 	// the fragment body behind a spread: walked under the visited-set guard only
-	fn := m.byName["walkSelection"]
+	fn := m.host("walkSelection", "fragmentSpread")
 	okBody := false
 	for _, ci := range callsTo([]*ssa.Function{fn}, m.byName["walkSelectionSet"]) {
 		if loadOfField(ci.Common().Args[2], "FragmentDefinition", "SelectionSet") {
@@ -945,6 +1016,9 @@ func walkCoverage(c *Ctx, r *RuleResult, m *walkerModel) {
 	}
 	if !okBody {
 		r.Fail(fn.Pos(), p.FuncName(fn), "fragment body not walked", "the selection set of a spread fragment is never walked from the spread")
+	}
+	for _, is := range m.hostIssues {
+		r.Fail(token.NoPos, "validator.(*Walker)", "case handed to a helper can be bypassed", is)
 	}
 	// walkSelectionSet walks every element; walk() walks every operation and fragment
 	for _, pr := range [][3]string{{"walkSelectionSet", "walkSelection", ""}, {"walk", "walkOperation", "QueryDocument.Operations"}, {"walk", "walkFragment", "QueryDocument.Fragments"}} {
@@ -1175,7 +1249,7 @@ func runC08(c *Ctx) {
 			r3.Fail(evSt.Field(i).Pos(), "validator.Events", "event list "+name, "an event list the coverage table does not know: whether it is dispatched is not decided")
 			continue
 		}
-		fn := m.byName[fnName]
+		fn := m.host(fnName, name)
 		disp := m.dispatchBlocks(fn, name)
 		if len(disp) == 0 {
 			r3.Fail(fn.Pos(), p.FuncName(fn), "Events."+name+" is never dispatched", "observers registered for this event never run: every rule built on it is silently disabled")
@@ -1215,6 +1289,11 @@ func runC08(c *Ctx) {
 			// from the type-assert success edge of that node kind to a return
 			want := map[string]string{"field": "Field", "inlineFragment": "InlineFragment", "fragmentSpread": "FragmentSpread"}[name]
 			start := typeCaseEntry(fn, want)
+			if start == nil && fn != m.byName[fnName] {
+				// the case was handed to a helper as a whole (host() checked that the hand-over cannot be bypassed):
+				// inside the helper the observers must be reached from its entry
+				start = fn.Blocks[0]
+			}
 			if start == nil {
 				r3.AnchorLost("type switch case *ast." + want + " in " + p.FuncName(fn))
 				continue
